@@ -54,23 +54,29 @@ func specIsLast(n *Node) bool {
 //@ func gtree.newStack
 //@   ensures fresh: fresh(result) && result.nodes != nil && len(result.nodes.view) == 0
 
+// stackOK(s): what dfs needs in order not to fail: the stack holds non-nil nodes. chain(s) (above) is what its functional
+// clauses need; they are conditional on it, so that a caller that can only guarantee stackOK (the massive-mode generator
+// worker, whose blocks are not known to hold a single root) may still call dfs: non-nil nodes, each a root or attached.
+//@ pred stackOK(s *stack): s != nil && s.nodes != nil && (forall k int :: {s.nodes.view[k]} 0 <= k && k < len(s.nodes.view) ==> s.nodes.view[k] != nil && isType(s.nodes.view[k], Node) && (as(s.nodes.view[k], Node).hierarchy == 1 || as(s.nodes.view[k], Node).parent != nil))
+
 //@ func gtree.stack.dfs
-//@   requires chain: chain(s)
+//@   requires ok: stackOK(s)
 //@   requires cur: current != nil && current.parent == nil && len(current.children) == 0 && current.hierarchy >= 2
 //@   requires orphan: forall q *Node, i int :: {q.children[i]} 0 <= i && i < len(q.children) ==> q.children[i] != current
 //@   modifies s.nodes.view, list.Element.backOf, Node.children, Node.parent
-//@   ensures chain': chain(s)
-//@   ensures merge [C01,C03]: current.hierarchy <= old(len(s.nodes.view)) + 1 && old(hasChildNamed(as(s.nodes.view[current.hierarchy-2], Node), current.name)) ==> len(s.nodes.view) == current.hierarchy && as(last(s.nodes.view), Node).name == current.name && contains(old(as(s.nodes.view[current.hierarchy-2], Node).children), last(s.nodes.view)) && (forall q *Node :: {q.children} q.children == old(q.children)) && (forall q *Node :: {q.parent} q.parent == old(q.parent))
-//@   ensures attach [C01,C02]: current.hierarchy <= old(len(s.nodes.view)) + 1 && !old(hasChildNamed(as(s.nodes.view[current.hierarchy-2], Node), current.name)) ==> len(s.nodes.view) == current.hierarchy && last(s.nodes.view) == current && current.parent == old(s.nodes.view[current.hierarchy-2]) && current.parent.children == old(as(s.nodes.view[current.hierarchy-2], Node).children) ++ seqof(current) && (forall q *Node :: {q.children} q != current.parent ==> q.children == old(q.children)) && (forall q *Node :: {q.parent} q != current ==> q.parent == old(q.parent))
-//@   ensures prefix: current.hierarchy <= old(len(s.nodes.view)) + 1 ==> take(s.nodes.view, current.hierarchy - 1) == take(old(s.nodes.view), current.hierarchy - 1)
-//@   ensures attached [C02]: result ==> len(s.nodes.view) >= 1 && as(last(s.nodes.view), Node).name == current.name && as(last(s.nodes.view), Node).hierarchy == current.hierarchy && as(last(s.nodes.view), Node).parent != nil
-//@   ensures reported [C02]: result == (current.hierarchy <= old(len(s.nodes.view)) + 1)
+//@   ensures ok' [C12]: stackOK(s)
+//@   ensures chain': old(chain(s)) ==> chain(s)
+//@   ensures merge [C01,C03]: old(chain(s)) && current.hierarchy <= old(len(s.nodes.view)) + 1 && old(hasChildNamed(as(s.nodes.view[current.hierarchy-2], Node), current.name)) ==> len(s.nodes.view) == current.hierarchy && as(last(s.nodes.view), Node).name == current.name && contains(old(as(s.nodes.view[current.hierarchy-2], Node).children), last(s.nodes.view)) && (forall q *Node :: {q.children} q.children == old(q.children)) && (forall q *Node :: {q.parent} q.parent == old(q.parent))
+//@   ensures attach [C01,C02]: old(chain(s)) && current.hierarchy <= old(len(s.nodes.view)) + 1 && !old(hasChildNamed(as(s.nodes.view[current.hierarchy-2], Node), current.name)) ==> len(s.nodes.view) == current.hierarchy && last(s.nodes.view) == current && current.parent == old(s.nodes.view[current.hierarchy-2]) && current.parent.children == old(as(s.nodes.view[current.hierarchy-2], Node).children) ++ seqof(current) && (forall q *Node :: {q.children} q != current.parent ==> q.children == old(q.children)) && (forall q *Node :: {q.parent} q != current ==> q.parent == old(q.parent))
+//@   ensures prefix: old(chain(s)) && current.hierarchy <= old(len(s.nodes.view)) + 1 ==> take(s.nodes.view, current.hierarchy - 1) == take(old(s.nodes.view), current.hierarchy - 1)
+//@   ensures attached [C02]: old(chain(s)) && result ==> len(s.nodes.view) >= 1 && as(last(s.nodes.view), Node).name == current.name && as(last(s.nodes.view), Node).hierarchy == current.hierarchy && as(last(s.nodes.view), Node).parent != nil
+//@   ensures reported [C02]: old(chain(s)) ==> result == (current.hierarchy <= old(len(s.nodes.view)) + 1)
 //@   ensures untouched [C02]: !result ==> (forall q *Node :: {q.children} q.children == old(q.children)) && (forall q *Node :: {q.parent} q.parent == old(q.parent))
 //@   ensures mono [C02]: forall q *Node :: {q.children} len(old(q.children)) <= len(q.children) && take(q.children, len(old(q.children))) == old(q.children)
 //@ loop gtree.stack.dfs#1
 //@   invariant popped: s.nodes.view == take(old(s.nodes.view), size - $i) && size == len(old(s.nodes.view))
 //@   invariant heap: (forall q *Node :: {q.children} q.children == old(q.children)) && (forall q *Node :: {q.parent} q.parent == old(q.parent))
-//@   invariant nomatch: forall k int :: {old(s.nodes.view)[k]} size - $i <= k && k < size ==> k + 2 != current.hierarchy
+//@   invariant nomatch: old(chain(s)) ==> (forall k int :: {old(s.nodes.view)[k]} size - $i <= k && k < size ==> k + 2 != current.hierarchy)
 
 
 // ---------------------------------------------------------------------------------------------
@@ -707,25 +713,29 @@ func specPreorderAll(roots []*Node, i int) []*Node {
 //@   assumed
 //@   modifies lastConfig
 //@   ghostset lastConfig := result
-//@   ensures cfg: fresh(result)
-
-//@ func gtree.newTreePipeline
-//@   assumed
-//@   ensures pipeline: result != nil && isType(result, treePipeline)
+//@   ensures cfg: fresh(result) && (result.massive ==> result.ctx != nil)
 
 //@ func gtree.initializeTree
-//@   requires nn: cfg != nil
+//@   requires nn: cfg != nil && (cfg.massive ==> cfg.ctx != nil)
 //@   ensures simple [C01,C03]: !cfg.massive ==> isType(result, treeSimple) && simpleTreeOK(as(result, treeSimple), cfg)
-//@   ensures massive: cfg.massive ==> isType(result, treePipeline)
+//@   ensures massive [C07,C09,C12]: cfg.massive ==> isType(result, treePipeline) && pipelineTreeOK(as(result, treePipeline), cfg)
 //@   ensures nn: result != nil
 
 // The massive (pipeline) implementations are not under contract (C10, C11 are not applicable to this technique).
 //@ func gtree.treePipeline.outputProgrammably
-//@   assumed
+//@   requires ok: pipelineTreeOK(t, cfg) && root != nil && root.hierarchy == 1
 //@   modifies Node.brnch.value, Node.brnch.path, out, wfail, defaultGrowSpreaderSimple.w, defaultSpreaderSimple.w, counter.n, encTrace, encoders
+//@   ensures dryfs [C09]: fsOps == old(fsOps) && fsFailed == old(fsFailed)
+//@   carries rootStream: rootChan
+//@ closure gtree.treePipeline.outputProgrammably#1
+//@   requires nn: root != nil && root.hierarchy == 1
 //@ func gtree.treePipeline.walkProgrammably
-//@   assumed
+//@   requires ok: pipelineTreeOK(t, cfg) && root != nil && root.hierarchy == 1
 //@   modifies Node.brnch.value, Node.brnch.path, cbTrace, cbFailed, cbLastErr
+//@   param callback follows walkCallback
+//@   carries rootStream: rootChan
+//@ closure gtree.treePipeline.walkProgrammably#1
+//@   requires nn: root != nil && root.hierarchy == 1
 
 //@ contract fromRootOutput
 //@   modifies Node.brnch.value, Node.brnch.path, out, wfail, defaultGrowSpreaderSimple.w, defaultSpreaderSimple.w, counter.n, encTrace, encoders, lastConfig
@@ -850,11 +860,13 @@ func lemmaRawAllIsRenderAll(last, mid branchFormat, roots []*Node, i int) {
 // tree_handler.go: From-Markdown entry points (and their deprecated aliases: same shared contracts)
 
 //@ func gtree.treePipeline.output
-//@   assumed
+//@   requires ok: pipelineTreeOK(t, cfg)
 //@   modifies Node.children, Node.parent, Node.brnch.value, Node.brnch.path, list.List.view, list.Element.backOf, counter.n, bufio.Scanner.pos, bufio.Scanner.failed, markdown.Parser.isSharpRoot, markdown.Parser.spaces, markdown.Parser.sep, out, wfail, defaultSpreaderSimple.w, encTrace, encoders, lastForest, rsRoots, rsFailed, rsStopped, rsErr, gsRoots, gsFailed, gsStopped, gsErr, spRoots, spText, esFailed
+//@   ensures dryfs [C09]: fsOps == old(fsOps) && fsFailed == old(fsFailed)
 //@ func gtree.treePipeline.walk
-//@   assumed
+//@   requires ok: pipelineTreeOK(t, cfg)
 //@   modifies Node.children, Node.parent, Node.brnch.value, Node.brnch.path, list.List.view, list.Element.backOf, counter.n, bufio.Scanner.pos, bufio.Scanner.failed, markdown.Parser.isSharpRoot, markdown.Parser.spaces, markdown.Parser.sep, cbTrace, cbFailed, cbLastErr, lastForest
+//@   param callback follows walkCallback
 
 //@ contract fromMarkdownOutput
 //@   modifies Node.children, Node.parent, Node.brnch.value, Node.brnch.path, list.List.view, list.Element.backOf, counter.n, bufio.Scanner.pos, bufio.Scanner.failed, markdown.Parser.isSharpRoot, markdown.Parser.spaces, markdown.Parser.sep, out, wfail, defaultSpreaderSimple.w, encTrace, encoders, libWriter, libFailed, libCalls, lastConfig, lastForest, rsRoots, rsFailed, rsStopped, rsErr, gsRoots, gsFailed, gsStopped, gsErr, spRoots, spText, esFailed
@@ -1170,11 +1182,15 @@ func fsExistsAt(p string) bool { _, err := os.Stat(p); return !os.IsNotExist(err
 //@   ensures report [C09]: cfg.dryrun && cfg.encode == encodeDefault && result == nil ==> validated(root) && out[color.Output] == old(out[color.Output]) ++ specDry(as(t.spreader, colorizeSpreaderSimple).fileColor, as(t.spreader, colorizeSpreaderSimple).dirColor, cfg.fileExtensions, root) ++ "\n" ++ specFmtCounts(specCountDirs(cfg.fileExtensions, root), specCountFiles(cfg.fileExtensions, root)) ++ "\n"
 
 //@ func gtree.treePipeline.mkdir
-//@   assumed
+//@   requires ok: pipelineTreeOK(t, cfg)
 //@   modifies Node.children, Node.parent, Node.brnch.value, Node.brnch.path, list.List.view, list.Element.backOf, counter.n, bufio.Scanner.pos, bufio.Scanner.failed, markdown.Parser.isSharpRoot, markdown.Parser.spaces, markdown.Parser.sep, fsOps, fsFailed, defaultGrowerSimple.enabledValidation, lastForest
 //@ func gtree.treePipeline.mkdirProgrammably
-//@   assumed
+//@   requires ok: pipelineTreeOK(t, cfg) && root != nil && root.hierarchy == 1
 //@   modifies Node.brnch.value, Node.brnch.path, fsOps, fsFailed, defaultGrowerSimple.enabledValidation, out, wfail, counter.n
+//@   ensures dryrun [C09]: cfg.dryrun ==> fsOps == old(fsOps) && fsFailed == old(fsFailed)
+//@   carries rootStream: rootChan
+//@ closure gtree.treePipeline.mkdirProgrammably#1
+//@   requires nn: root != nil && root.hierarchy == 1
 
 //@ contract fromMarkdownMkdir
 //@   modifies Node.children, Node.parent, Node.brnch.value, Node.brnch.path, list.List.view, list.Element.backOf, counter.n, bufio.Scanner.pos, bufio.Scanner.failed, markdown.Parser.isSharpRoot, markdown.Parser.spaces, markdown.Parser.sep, fsOps, fsFailed, defaultGrowerSimple.enabledValidation, libFailed, libCalls, lastConfig, lastForest
@@ -1311,11 +1327,16 @@ func lemmaInBeforeContains(ks []string, x string, i int) {
 //@   ensures fsframe [C08]: fsOps == old(fsOps) && fsFailed == old(fsFailed)
 
 //@ func gtree.treePipeline.verify
-//@   assumed
+//@   requires ok: pipelineTreeOK(t, cfg)
 //@   modifies Node.children, Node.parent, Node.brnch.value, Node.brnch.path, list.List.view, list.Element.backOf, counter.n, bufio.Scanner.pos, bufio.Scanner.failed, markdown.Parser.isSharpRoot, markdown.Parser.spaces, markdown.Parser.sep, defaultGrowerSimple.enabledValidation, maps, lastForest
+//@   ensures fsframe [C08]: fsOps == old(fsOps) && fsFailed == old(fsFailed)
 //@ func gtree.treePipeline.verifyProgrammably
-//@   assumed
+//@   requires ok: pipelineTreeOK(t, cfg) && root != nil && root.hierarchy == 1
 //@   modifies Node.brnch.value, Node.brnch.path, defaultGrowerSimple.enabledValidation, maps
+//@   ensures fsframe [C08]: fsOps == old(fsOps) && fsFailed == old(fsFailed)
+//@   carries rootStream: rootChan
+//@ closure gtree.treePipeline.verifyProgrammably#1
+//@   requires nn: root != nil && root.hierarchy == 1
 
 //@ contract fromMarkdownVerify
 //@   modifies Node.children, Node.parent, Node.brnch.value, Node.brnch.path, list.List.view, list.Element.backOf, counter.n, bufio.Scanner.pos, bufio.Scanner.failed, markdown.Parser.isSharpRoot, markdown.Parser.spaces, markdown.Parser.sep, defaultGrowerSimple.enabledValidation, maps, libFailed, libCalls, lastConfig, lastForest
